@@ -45,7 +45,11 @@ def run(tier, seed, t0):
           # liveness under fairness: whoever waits is eventually released (and is not, if senders are kept)
           vlib.run_mc("MC_Conn", "MC_Conn_live_q.cfg" if tier == "quick" else "MC_Conn_live.cfg", workers=8,
                       timeout=1800, xmx="8g"),
-          vlib.run_mc("MC_Conn", "MC_Conn_live_bug.cfg", workers=2, expect_violation="EveryCallerReleased")]
+          vlib.run_mc("MC_Conn", "MC_Conn_live_bug.cfg", workers=2, expect_violation="EveryCallerReleased"),
+          # the same towards a protocol-abiding server that closes channels / the connection / cancels on its own
+          # while the client calls and closes: every caller, Connection::close included, is released
+          vlib.run_mc("MC_Conn", "MC_Conn_live_compliant.cfg" if tier == "quick" else "MC_Conn_live_compliant2.cfg",
+                      workers=6, timeout=2400, xmx="8g")]
     total, writes, hs = baseline()
     rng = random.Random("c05-%d" % seed)
     scn = scenarios.crash_scenarios(total, writes, hs, tier, rng)
